@@ -1,5 +1,264 @@
-(* C04 - property theorems only *)
-From VT Require Import Check.C04Check.
-Theorem C04_placeholder : forall h : hcase, c04_eval h = c04_eval h.
-Proof. reflexivity. Qed.
-Print Assumptions C04_placeholder.
+(* C04 - property theorems only (proofs in Server/StepLemmas.v, Server/Lifecycle.v) *)
+From VT Require Import Server.Lifecycle.
+Open Scope N_scope.
+
+(* ---- the state invariant: holds initially, preserved by every operation of every
+        configuration (scripted handler actions included) ---- *)
+Theorem C04_invariant_init : Inv srv_init.
+Proof. exact Inv_init. Qed.
+Print Assumptions C04_invariant_init.
+
+Theorem C04_invariant_step : forall c s o, Inv s -> Inv (fst (step c s o)).
+Proof. exact step_Inv. Qed.
+Print Assumptions C04_invariant_step.
+
+Theorem C04_invariant_run : forall c ops s, Inv s -> Inv (fst (run c s ops)).
+Proof. exact run_Inv. Qed.
+Print Assumptions C04_invariant_run.
+
+(* ---- C04_error_args ---- *)
+Theorem C04_error_args :
+  error_args [] = PDict [(k_message, PStr (s2l "Connection rejected by server"))] /\
+  (forall a, error_args [a] = PDict [(k_message, PStr (py_str a))]) /\
+  (forall a b, error_args [a; b] = PDict [(k_message, PStr (py_str a)); (k_data, b)]) /\
+  (forall a b d rest, error_args (a :: b :: d :: rest) =
+                      PDict [(k_message, PStr (py_str a)); (k_data, PTuple (b :: d :: rest))]).
+Proof. exact error_args_cases. Qed.
+Print Assumptions C04_error_args.
+
+(* ---- C04_connect_cases ---- *)
+(* (i) namespace not served: CONNECT_ERROR "Unable to connect", no handler, state unchanged *)
+Theorem C04_connect_cases_not_served : forall c eio pn data s,
+  served c (ns_or_default pn) = false ->
+  handle_connect c eio pn data s =
+  (s, sp_effs s eio (frames_of c CONNECT_ERROR unable (ns_or_default pn) None),
+      sp_res (frames_of c CONNECT_ERROR unable (ns_or_default pn) None)).
+Proof. exact connect_not_served. Qed.
+Print Assumptions C04_connect_cases_not_served.
+
+(* (i) transport already connected to the namespace: the same answer; only the id generator moved *)
+Theorem C04_connect_cases_duplicate : forall c eio pn data s,
+  Inv s -> served c (ns_or_default pn) = true -> sid_from_eio (mg s) eio (ns_or_default pn) <> None ->
+  handle_connect c eio pn data s =
+  (bump s, sp_effs s eio (unable_frames c (ns_or_default pn)), sp_res (unable_frames c (ns_or_default pn))).
+Proof. exact connect_duplicate. Qed.
+Print Assumptions C04_connect_cases_duplicate.
+
+(* (ii) otherwise the manager registers sid := sid_name (fresh s) *)
+Theorem C04_connect_cases_registered : forall eio pn s,
+  Inv s -> sid_from_eio (mg s) eio (ns_or_default pn) = None ->
+  let ns := ns_or_default pn in let sid := new_sid s in let s1 := conn_state s eio ns in
+  snd (mgr_connect (mg s) eio ns sid) = Some sid /\ MOK (mg s1) /\
+  sid_from_eio (mg s1) eio ns = Some sid /\ eio_from_sid (mg s1) sid ns = Some eio /\
+  is_connected (mg s1) (Some sid) ns = true /\
+  pending (mg s1) = pending (mg s) /\ callbacks (mg s1) = callbacks (mg s) /\
+  (forall ns', ns <> ns' -> ns_rooms (mg s1) ns' = ns_rooms (mg s) ns').
+Proof. exact conn_state_facts. Qed.
+Print Assumptions C04_connect_cases_registered.
+
+(* accepted, nobody to ask: one CONNECT {sid}, no Call *)
+Theorem C04_connect_cases_accept_no_handler : forall c eio pn data s env,
+  has_actions c = false -> Inv s -> served c (ns_or_default pn) = true ->
+  sid_from_eio (mg s) eio (ns_or_default pn) = None -> aget str_eqb (environ s) eio = Some env ->
+  hid_for c ev_connect (ns_or_default pn) = None ->
+  handle_connect c eio pn data s =
+  (conn_state s eio (ns_or_default pn), sp_effs s eio (accept_frames c (ns_or_default pn) (new_sid s)), Ok tt).
+Proof. exact connect_accept_no_handler. Qed.
+Print Assumptions C04_connect_cases_accept_no_handler.
+
+(* accepted by the handler: exactly one Call with the auth payload, exactly one CONNECT {sid} *)
+Theorem C04_connect_cases_accept_handler : forall c eio pn data s env,
+  has_actions c = false -> Inv s -> served c (ns_or_default pn) = true ->
+  sid_from_eio (mg s) eio (ns_or_default pn) = None -> aget str_eqb (environ s) eio = Some env ->
+  forall h pre b,
+  responsible c ev_connect (ns_or_default pn) [] = Some (Some h, pre) -> aget N.eqb (behav c) h = Some b ->
+  arity_bad b (List.length (connect_args (new_sid s) env data b pre)) = false ->
+  forall v, h_outcome b = Returns v -> v <> PBool false ->
+  handle_connect c eio pn data s =
+  (conn_state s eio (ns_or_default pn),
+   if always_connect c
+   then sp_effs s eio (accept_frames c (ns_or_default pn) (new_sid s)) ++ [Call h (connect_args (new_sid s) env data b pre)]
+   else Call h (connect_args (new_sid s) env data b pre) :: sp_effs s eio (accept_frames c (ns_or_default pn) (new_sid s)),
+   Ok tt).
+Proof. exact connect_accept_handler. Qed.
+Print Assumptions C04_connect_cases_accept_handler.
+
+(* refused (False / ConnectionRefusedError): one Call, then the refusal's error_args *)
+Theorem C04_connect_cases_refused : forall c eio pn data s env,
+  has_actions c = false -> Inv s -> served c (ns_or_default pn) = true ->
+  sid_from_eio (mg s) eio (ns_or_default pn) = None -> aget str_eqb (environ s) eio = Some env ->
+  forall h pre b,
+  responsible c ev_connect (ns_or_default pn) [] = Some (Some h, pre) -> aget N.eqb (behav c) h = Some b ->
+  arity_bad b (List.length (connect_args (new_sid s) env data b pre)) = false ->
+  forall why, refusal_of (h_outcome b) = Some why ->
+  let ns := ns_or_default pn in let sid := new_sid s in let s1 := conn_state s eio ns in
+  let args := connect_args sid env data b pre in
+  handle_connect c eio pn data s =
+  if always_connect c then
+    (upd_mg s1 (mgr_disconnect (fst (pre_disconnect (mg s1) sid ns)) sid ns),
+     sp_effs s eio (accept_frames c ns sid) ++ Call h args :: sp_effs s eio (frames_of c DISCONNECT why ns None),
+     sp_res (frames_of c DISCONNECT why ns None))
+  else
+    (upd_mg s1 (mgr_disconnect (mg s1) sid ns),
+     Call h args :: sp_effs s eio (frames_of c CONNECT_ERROR why ns None),
+     sp_res (frames_of c CONNECT_ERROR why ns None)).
+Proof. exact connect_refused. Qed.
+Print Assumptions C04_connect_cases_refused.
+
+(* ... and nothing of the refused session stays behind, encodable refusal or not *)
+Theorem C04_connect_cases_refused_state : forall c eio pn data s env,
+  has_actions c = false -> Inv s -> served c (ns_or_default pn) = true ->
+  sid_from_eio (mg s) eio (ns_or_default pn) = None -> aget str_eqb (environ s) eio = Some env ->
+  forall h pre b,
+  responsible c ev_connect (ns_or_default pn) [] = Some (Some h, pre) -> aget N.eqb (behav c) h = Some b ->
+  arity_bad b (List.length (connect_args (new_sid s) env data b pre)) = false ->
+  forall why s' effs res, refusal_of (h_outcome b) = Some why ->
+  handle_connect c eio pn data s = (s', effs, res) ->
+  (forall ns', eio_from_sid (mg s') (new_sid s) ns' = None) /\ is_member (mg s') (new_sid s) = false /\
+  MOK (mg s') /\ pending (mg s') = pending (mg s) /\ callbacks (mg s') = callbacks (mg s) /\
+  (forall ns', ns_or_default pn <> ns' -> ns_rooms (mg s') ns' = ns_rooms (mg s) ns') /\
+  fresh s' = fresh s + 1 /\ environ s' = environ s /\ binpkt s' = binpkt s /\
+  sessions s' = sessions s /\ live s' = live s.
+Proof. exact connect_refused_state. Qed.
+Print Assumptions C04_connect_cases_refused_state.
+
+(* ... and every namespace has exactly the members (sid, transport) it had before the request *)
+Theorem C04_connect_cases_refused_members : forall c eio pn data s env,
+  has_actions c = false -> Inv s -> served c (ns_or_default pn) = true ->
+  sid_from_eio (mg s) eio (ns_or_default pn) = None -> aget str_eqb (environ s) eio = Some env ->
+  forall h pre b,
+  responsible c ev_connect (ns_or_default pn) [] = Some (Some h, pre) -> aget N.eqb (behav c) h = Some b ->
+  arity_bad b (List.length (connect_args (new_sid s) env data b pre)) = false ->
+  forall why, refusal_of (h_outcome b) = Some why ->
+  forall ns', ns_members (mg (st (handle_connect c eio pn data s))) ns' = ns_members (mg s) ns'.
+Proof. exact connect_refused_members. Qed.
+Print Assumptions C04_connect_cases_refused_members.
+
+(* ---- C04_fresh_sid ---- *)
+Theorem C04_sid_name_injective : forall a b, sid_name a = sid_name b -> a = b.
+Proof. exact sid_name_inj. Qed.
+Print Assumptions C04_sid_name_injective.
+
+Theorem C04_fresh_monotone : forall c ops s, fresh s <= fresh (fst (run c s ops)).
+Proof. exact run_fresh_mono. Qed.
+Print Assumptions C04_fresh_monotone.
+
+Theorem C04_connect_consumes_id : forall c eio pn data s,
+  served c (ns_or_default pn) = true -> fresh s + 1 <= fresh (st (handle_connect c eio pn data s)).
+Proof. exact handle_connect_consumes. Qed.
+Print Assumptions C04_connect_consumes_id.
+
+Theorem C04_fresh_sid : forall c ops s,
+  (forall sid, In sid (announced c s ops) ->
+     exists k, sid = sid_name k /\ fresh s <= k < fresh (fst (run c s ops))) /\
+  NoDup (announced c s ops).
+Proof. exact announced_fresh. Qed.
+Print Assumptions C04_fresh_sid.
+
+(* ---- C04_disconnect_once_seq ---- *)
+Theorem C04_disconnect_once_seq_packet : forall c s sid pn,
+  has_actions c = false -> is_connected (mg s) (Some sid) (ns_or_default pn) = true ->
+  forall h pre b v,
+  responsible c ev_disconnect (ns_or_default pn) [] = Some (Some h, pre) ->
+  aget N.eqb (behav c) h = Some b -> h_outcome b = Returns v ->
+  forall eio reason,
+  sid_from_eio (mg s) eio (ns_or_default pn) = Some sid ->
+  arity_bad b (List.length (disc_args sid (reason_or_client reason) b pre)) = false ->
+  handle_disconnect c eio pn reason s =
+  (disc_state s sid (ns_or_default pn), [Call h (disc_args sid (reason_or_client reason) b pre)], Ok tt).
+Proof. exact disconnect_packet_once. Qed.
+Print Assumptions C04_disconnect_once_seq_packet.
+
+Theorem C04_disconnect_once_seq_api : forall c s sid pn,
+  has_actions c = false -> is_connected (mg s) (Some sid) (ns_or_default pn) = true ->
+  forall h pre b v,
+  responsible c ev_disconnect (ns_or_default pn) [] = Some (Some h, pre) ->
+  aget N.eqb (behav c) h = Some b -> h_outcome b = Returns v ->
+  arity_bad b (List.length (disc_args sid r_server_disconnect b pre)) = false ->
+  api_disconnect c sid pn s =
+  (disc_state s sid (ns_or_default pn),
+   match eio_from_sid (mg s) sid (ns_or_default pn) with
+   | Some e => sp_effs s e (frames_of c DISCONNECT PNone (ns_or_default pn) None)
+   | None => [] end ++ [Call h (disc_args sid r_server_disconnect b pre)], Ok tt).
+Proof. exact disconnect_api_once. Qed.
+Print Assumptions C04_disconnect_once_seq_api.
+
+(* transport loss: one chunk of effects per namespace of the manager, in order *)
+Theorem C04_disconnect_once_seq_transport : forall c eio reason s,
+  has_actions c = false -> Inv s ->
+  let r := handle_eio_disconnect c eio reason s in
+  snd (fst r) = flat_map (disc_chunk c s eio reason) (get_namespaces (mg s)) /\
+  MOK (mg (st r)) /\
+  (forall n sid, sid_from_eio (mg s) eio n = Some sid -> is_connected (mg s) (Some sid) n = true ->
+                 eio_from_sid (mg (st r)) sid n = None /\ is_connected (mg (st r)) (Some sid) n = false) /\
+  fresh (st r) = fresh s /\ live (st r) = live s.
+Proof. exact eio_disconnect_effects. Qed.
+Print Assumptions C04_disconnect_once_seq_transport.
+
+Theorem C04_disconnect_transport_chunk : forall c s eio reason ns sid h pre b v,
+  sid_from_eio (mg s) eio ns = Some sid -> is_connected (mg s) (Some sid) ns = true ->
+  responsible c ev_disconnect ns [] = Some (Some h, pre) -> aget N.eqb (behav c) h = Some b ->
+  h_outcome b = Returns v ->
+  arity_bad b (List.length (disc_args sid (reason_or_client reason) b pre)) = false ->
+  disc_chunk c s eio reason ns = [Call h (disc_args sid (reason_or_client reason) b pre)].
+Proof. exact disc_chunk_returns. Qed.
+Print Assumptions C04_disconnect_transport_chunk.
+
+(* afterwards: not connected, in no room list of the namespace, other namespaces untouched *)
+Theorem C04_disconnect_post : forall s sid ns,
+  MOK (mg s) ->
+  let s' := disc_state s sid ns in
+  MOK (mg s') /\
+  is_connected (mg s') (Some sid) ns = false /\ eio_from_sid (mg s') sid ns = None /\
+  (forall e, ~ In (ns, sid, e) (all_sids (mg s'))) /\
+  (forall ns', ns <> ns' -> ns_rooms (mg s') ns' = ns_rooms (mg s) ns') /\
+  (forall ns' e, ns <> ns' -> sid_from_eio (mg s') e ns' = sid_from_eio (mg s) e ns') /\
+  fresh s' = fresh s /\ environ s' = environ s /\ binpkt s' = binpkt s /\ sessions s' = sessions s /\ live s' = live s.
+Proof. exact disc_state_facts. Qed.
+Print Assumptions C04_disconnect_post.
+
+Theorem C04_other_namespaces_unaffected : forall s sid ns ns' e,
+  MOK (mg s) -> ns <> ns' ->
+  sid_from_eio (mg (disc_state s sid ns)) e ns' = sid_from_eio (mg s) e ns' /\
+  ns_rooms (mg (disc_state s sid ns)) ns' = ns_rooms (mg s) ns'.
+Proof. exact other_namespaces_unaffected. Qed.
+Print Assumptions C04_other_namespaces_unaffected.
+
+Theorem C04_no_second_call : forall c s sid pn,
+  is_connected (mg s) (Some sid) (ns_or_default pn) = false ->
+  api_disconnect c sid pn s = (s, [], Ok tt) /\
+  (forall eio reason,
+      sid_from_eio (mg s) eio (ns_or_default pn) = Some sid \/ sid_from_eio (mg s) eio (ns_or_default pn) = None ->
+      handle_disconnect c eio pn reason s = (s, [], Ok tt)).
+Proof. exact no_second_call. Qed.
+Print Assumptions C04_no_second_call.
+
+(* closed form: after one terminating operation on (eio, ns, sid), a second one of any kind
+   (DISCONNECT packet, server.disconnect(), the namespace's share of a transport loss) does nothing *)
+Theorem C04_disconnect_then_noop : forall c s sid eio pn,
+  MOK (mg s) -> sid_from_eio (mg s) eio (ns_or_default pn) = Some sid ->
+  let s' := disc_state s sid (ns_or_default pn) in
+  sid_from_eio (mg s') eio (ns_or_default pn) = None /\
+  (forall reason, handle_disconnect c eio pn reason s' = (s', [], Ok tt)) /\
+  api_disconnect c sid pn s' = (s', [], Ok tt) /\
+  (forall reason, disc_chunk c s' eio reason (ns_or_default pn) = []).
+Proof. exact disconnect_then_noop. Qed.
+Print Assumptions C04_disconnect_then_noop.
+
+(* ---- executable form: the connect verdict of the checker applied to the implementation
+        accepts the model's own behaviour ---- *)
+Theorem C04_model_passes_connect_checker : forall c s eio payload tbl pn data env,
+  has_actions c = false -> Inv s -> is_live s eio = true ->
+  connect_of c s eio payload tbl = Some (pn, data) ->
+  aget str_eqb (environ s) eio = Some env ->
+  let o := EioMessage eio payload tbl in
+  c04_connect c s (fst (step c s o)) eio pn data (snd (step c s o)) = true.
+Proof. exact model_passes_c04_connect. Qed.
+Print Assumptions C04_model_passes_connect_checker.
+
+(* the complete per-step checker has a domain condition on configurations (distinct handler
+   ids for the disconnect event): without it the model itself is flagged *)
+Theorem C04_step_checker_shared_handler_refuted :
+  exists c s o, Inv s /\ has_actions c = false /\ c04_step c s o (snd (step c s o)) = false.
+Proof. exact c04_step_shared_handler_refuted. Qed.
+Print Assumptions C04_step_checker_shared_handler_refuted.
